@@ -6,7 +6,8 @@ usage: tools_mutate.py <n> <seed> [file-regex]"""
 import os, re, random, subprocess, sys, json, time
 
 REPO = "/repo"
-SRC = os.path.join(REPO, "epserde", "src")
+SRC = os.path.join(REPO, os.environ.get("MUT_CRATE", "epserde"), "src")
+PKG = os.environ.get("MUT_CRATE", "epserde")
 ORDER = ["C01", "C02", "C06", "C07", "C04", "C15", "C11", "C12", "C13", "C14", "C16", "C18", "C08", "C09", "C10", "C03", "C05", "C17", "C19"]
 
 
@@ -69,7 +70,7 @@ def main():
     rng = random.Random(seed)
     ss = [s for s in sites() if not flt or re.search(flt, s[0])]
     rng.shuffle(ss)
-    log = open("/verif/.cache/mutation_sweep.log", "a")
+    log = open("/verif/.cache/mutation_sweep%s.log" % ("" if PKG == "epserde" else "_derive"), "a")
     done = 0
     for (p, i, kind, old, new) in ss:
         if done >= n:
@@ -82,7 +83,7 @@ def main():
             continue
         lines[i] = new
         open(p, "w").write("\n".join(lines))
-        rc, out = sh("cargo check --offline --quiet -p epserde", cwd=REPO, timeout=600)
+        rc, out = sh("cargo check --offline --quiet -p %s" % PKG, cwd=REPO, timeout=600)
         rel = os.path.relpath(p, SRC)
         if rc != 0:
             sh("git -C /repo checkout -- .")
